@@ -46,8 +46,8 @@ class K:
             ctx.late.append(self.idx)
         ctx.rec.append(self.idx)
         if armed:
-            for j in ctx.kill[self.idx]:
-                ctx.vanish(j)
+            for j in (ctx.kill[self.idx] if self.idx < len(ctx.kill) else ()):     # replacements kill nobody
+                ctx.vanish(j, True)
 
 
 def _slot_hashes(n=4):
@@ -70,7 +70,9 @@ DISPATCHER_CFG = [
     ('direct', True, 'remove_handler'),     # stays alive, explicitly removed
     ('direct', False, 'drop'),              # registered from a temporary: gone at once
     ('direct', True, 'clear+drop'),         # the killer calls dispatcher.clear(), then drops the last reference
+    ('direct', True, 'drop+replace'),       # last reference dropped, a fresh handler of the class registered at once
 ]
+N_CLASSIC = {False: 4, True: 8}             # configurations used when an entry does not say which (cfgs=None)
 WORLD_CFG = [
     ('component', False, 'remove_component'),
     ('component', False, 'delete_entity'),
@@ -80,6 +82,8 @@ WORLD_CFG = [
     ('direct', True, 'remove_handler'),
     ('direct', True, 'clear+drop'),         # free-standing handler: world.clear(), then the last reference goes
     ('component', False, 'clear'),          # world.clear() deletes the entity that holds the only reference
+    ('component', False, 'remove_component+replace'),   # component removed, a fresh one of the class added at once
+    ('direct', True, 'drop+replace'),
 ]
 
 
@@ -95,6 +99,8 @@ class Ctx:
         self.ents = {}
         self.refs = {}
         self.cleared = False        # clear() was called since the flag was last reset
+        self.replaced = False       # a victim was replaced by a fresh handler of its class during a dispatch
+        self.reused = False         # ... and the fresh handler got the victim's address
         self.rec = []
         self.late = []              # handlers called although nothing but the dispatcher referred to them any more
         # model: 'live' must be reached, 'open' alive but detached (left open), 'removed' alive and must not be
@@ -115,10 +121,14 @@ class Ctx:
             self.status[i] = 'live' if (keep or att == 'component') else 'gone'
             del h
 
-    def vanish(self, j):
+    def vanish(self, j, in_callback=False):
         if self.status[j] != 'live':
             return
         att, keep, route = self.cfg[j]
+        if route.endswith('+replace'):
+            if in_callback:
+                return self.replace(j, route)
+            route = route[:-len('+replace')]        # between operations: the plain route
         if route == 'drop':
             self.strong.pop(j, None)
             self.status[j] = 'gone'
@@ -136,6 +146,29 @@ class Ctx:
             if route == 'clear+drop':
                 self.strong.pop(j, None)
                 self.status[j] = 'gone'
+
+    def replace(self, j, route):
+        """the victim's last reference goes and a fresh handler of the same class is created and registered at once
+        (nothing allocated in between, so CPython is likely to hand out the victim's address again)"""
+        new_idx = len(self.kill) + j
+        if route == 'drop+replace':
+            old_id = id(self.strong[j])
+            del self.strong[j]
+            self.strong[new_idx] = K(3, new_idx)
+            self.d.add_handler(self.strong[new_idx])
+            self.reused = self.reused or id(self.strong[new_idx]) == old_id
+            self.refs[new_idx] = weakref.ref(self.strong[new_idx])
+        else:
+            e = self.ents[j]
+            old_id = id(self.d.get_component(e, K))
+            self.d.remove_component(e, K)
+            self.d.add_component(e, K(3, new_idx))
+            self.reused = self.reused or id(self.d.get_component(e, K)) == old_id
+            self.refs[new_idx] = weakref.ref(self.d.get_component(e, K))
+            self.ents[new_idx] = e
+        self.status[j] = 'gone'
+        self.status[new_idx] = 'live'
+        self.replaced = True
 
     def clear_all(self):
         """dispatcher.clear() / world.clear(): nobody is registered afterwards; a World also deletes every entity, so
@@ -169,6 +202,10 @@ def run_program(sp, world_mode, cfg, kill, pre, mid, perm, what, defer=0):
     for i in ctx.rec:
         if i is not None:
             victims.update(kill[i])
+    if ctx.replaced:
+        sp.cover('replaced-during-dispatch')
+        if ctx.reused:
+            sp.cover('address-reused')
     if ctx.cleared:
         victims = set(range(k))     # clear() during the dispatch unregistered everybody
         sp.cover('cleared-during-dispatch')
@@ -190,6 +227,8 @@ def run_program(sp, world_mode, cfg, kill, pre, mid, perm, what, defer=0):
     judge(sp, ctx, before, set(), what, 'last dispatch')
     if any(s == 'live' for s in before.values()) and any(s == 'gone' for s in before.values()):
         sp.cover('survivors-and-dead')
+    if any(i >= k and s == 'live' for i, s in before.items()):
+        sp.cover('replacement-served-later')
     return order
 
 
@@ -253,7 +292,7 @@ def check_refs(sp, ctx, what, when):
 
 def h_weak(sp, k=2, world=True, cfgs=None, diag=False, drops=True, defer=(0,)):
     table = WORLD_CFG if world else DISPATCHER_CFG
-    allowed = list(range(len(table))) if cfgs is None else list(cfgs)
+    allowed = list(range(N_CLASSIC[bool(world)])) if cfgs is None else list(cfgs)
     cfg = [table[sp.pick(allowed, 'config[h%d]' % i)] for i in range(k)]
     kill = []
     for i in range(k):
@@ -315,6 +354,8 @@ HARNESSES = {
 
 NOCLEAR_REQ = ['kill-relation', 'died-during-dispatch', 'died-before-its-turn', 'detached-alive-during-dispatch',
                'survivors-and-dead', 'all-listener-orders']
+REPL_REQ = ['kill-relation', 'died-during-dispatch', 'died-before-its-turn', 'survivors-and-dead',
+            'all-listener-orders', 'replaced-during-dispatch', 'address-reused', 'replacement-served-later']
 DEFER_REQ = NOCLEAR_REQ + ['died-during-deferred-release', 'cleared-during-dispatch']
 
 TIERS = {
@@ -326,6 +367,11 @@ TIERS = {
         ('weak', dict(k=2, world=False, diag=True, drops=False, defer=(1, 2)), {'required': DEFER_REQ}),
         ('weak', dict(k=2, world=True, diag=True, drops=False, defer=(1, 2)), {'required': DEFER_REQ}),
         ('weak', dict(k=3, world=True, cfgs=[0, 1, 3, 4, 6], drops=False, defer=(1,)), {'required': DEFER_REQ}),
+        ('weak', dict(k=2, world=False, cfgs=[0, 1, 4], diag=True, drops=False, defer=(0, 1)), {'required': REPL_REQ}),
+        ('weak', dict(k=3, world=False, cfgs=[0, 4], drops=False), {'required': REPL_REQ}),
+        ('weak', dict(k=2, world=True, cfgs=[0, 2, 8, 9], diag=True, drops=False, defer=(0, 1)),
+         {'required': REPL_REQ}),
+        ('weak', dict(k=3, world=True, cfgs=[0, 8, 9], drops=False), {'required': REPL_REQ}),
     ],
     'thorough': [
         ('weak', dict(k=3, world=False, diag=True, drops=False)),
@@ -337,6 +383,10 @@ TIERS = {
         ('weak', dict(k=3, world=False, drops=False, defer=(1, 2)), {'required': DEFER_REQ}),
         ('weak', dict(k=2, world=True, diag=True, defer=(1, 2)), {'required': DEFER_REQ}),
         ('weak', dict(k=3, world=True, drops=False, defer=(1, 2)), {'required': DEFER_REQ}),
+        ('weak', dict(k=3, world=False, cfgs=[0, 1, 3, 4], drops=False, defer=(0, 1)), {'required': REPL_REQ}),
+        ('weak', dict(k=2, world=False, cfgs=[0, 1, 4], diag=True), {'required': REPL_REQ}),
+        ('weak', dict(k=3, world=True, cfgs=[0, 1, 4, 8, 9], drops=False, defer=(0, 1)), {'required': REPL_REQ}),
+        ('weak', dict(k=2, world=True, cfgs=[0, 2, 3, 8, 9], diag=True), {'required': REPL_REQ}),
     ],
 }
 BUDGET_S = {'quick': 120, 'thorough': 1500}
@@ -373,6 +423,10 @@ ASSUMPTIONS = [
     'by an earlier callback of the dispatch must not be called any more (neither with receiver None nor kept '
     'alive by the dispatcher)',
     'handlers removed with remove_handler must not be reached later (dispatcher semantics, C03)',
+    'replace routes: the killing callback drops the victim (last reference / remove_component) and at once creates '
+    'and registers a fresh handler of the same class; the fresh one may or may not be served by the dispatch in '
+    'progress and must be served by every later dispatch, the victim must never be called; that the fresh object '
+    'gets the address of the victim is up to CPython and is witnessed by the required cover tag address-reused',
     'clear() on the dispatcher / World unregisters every handler (documented): later dispatches reach nobody; '
     'handlers the program still holds stay alive, components only the World held are gone; during the dispatch in '
     'which clear() is called every handler counts as made to disappear in that dispatch',
